@@ -203,4 +203,29 @@ AFromWideWords(value, lo, hi) ==
            ELSE FNeg(IntToW(ai - value))
   IN TF(a, b)
 AFromWide(value, lo, hi) == LET w == AFromWideWords(value, lo, hi) IN F2S(w.hi, w.lo)
+
+\* ---- src/convert.rs  TryFrom<TwoFloat> for integer types ------------------------------------------
+\* bigint_convert (types wider than the significand; at binary64: i64, u64, i128, u128):
+\*   LOWER = (MIN as f64, 0), UPPER = (MAX as f64, -1.0); range test by the lexicographic order of TwoFloat;
+\*   three ways of assembling the integer from the two words.  Returns [ok, n, ovf]; ovf = an intermediate
+\*   integer left the type (Rust would panic with overflow checks, wrap without).
+InT(n, lo, hi) == n >= lo /\ n <= hi
+AToWide(x, lo, hi) ==
+  LET fmin == IntToW(lo)   fmax == IntToW(hi)
+      LOWERB == TF(fmin, Zero(FALSE))   UPPERB == TF(fmax, FNeg(One(FALSE)))
+      t == ATrunc(x)
+  IN IF ~(t.hi.k = "f" /\ t.lo.k = "f" /\ LexLe(LOWERB, t) /\ LexLe(t, UPPERB)) THEN [ok |-> FALSE, n |-> 0, ovf |-> FALSE]
+     ELSE IF FEq(t.hi, fmax)
+          THEN LET c == WToIntSat(FNeg(t.lo), lo, hi) IN [ok |-> TRUE, n |-> hi - c + 1, ovf |-> ~InT(hi - c, lo, hi) \/ ~InT(hi - c + 1, lo, hi)]
+     ELSE IF GeZero(t.lo)
+          THEN LET a == WToIntSat(t.hi, lo, hi)   b == WToIntSat(t.lo, lo, hi) IN [ok |-> TRUE, n |-> a + b, ovf |-> ~InT(a + b, lo, hi)]
+     ELSE LET a == WToIntSat(t.hi, lo, hi)   b == WToIntSat(FNeg(t.lo), lo, hi) IN [ok |-> TRUE, n |-> a - b, ovf |-> ~InT(a - b, lo, hi)]
+\* int_convert (types that fit the significand; at binary64: i8..i32, u8..u32): f64 bounds, TwoFloat item
+\* (`f64 <= TwoFloat` compares the high words, then 0 with the low word), then `truncated.hi() as T`
+LeWT(w, t) == LET c == FCmp(w, t.hi) IN IF c = 0 THEN FCmp(Zero(FALSE), t.lo) \in {-1, 0} ELSE c = -1
+LeTW(t, w) == LET c == FCmp(t.hi, w) IN IF c = 0 THEN FCmp(t.lo, Zero(FALSE)) \in {-1, 0} ELSE c = -1
+AToNarrow(x, lo, hi) ==
+  LET t == ATrunc(x) IN
+  IF ~(t.hi.k = "f" /\ t.lo.k = "f" /\ LeWT(IntToW(lo), t) /\ LeTW(t, IntToW(hi))) THEN [ok |-> FALSE, n |-> 0, ovf |-> FALSE]
+  ELSE [ok |-> TRUE, n |-> WToIntSat(t.hi, lo, hi), ovf |-> FALSE]
 =============================================================================
